@@ -34,7 +34,7 @@ T={
  "C19":("differential vs R1 (all match paths with capture environments) and R2; multi-digit reference parsing checked behaviourally","4 C19",
         "is_match, spans and captures of patterns with back-references, plus the longest-number reading of \\N followed by digits",
         "both capture readings accepted when the referenced group is inside a loop; listed findings: fixed-length loop with back-referenced group, ForceProgress cut-off"),
- "C20":("metamorphic: one algebraic rewrite at one position, both spellings run on the same inputs","4 C20",
+ "C20":("metamorphic: one algebraic rewrite at one position, both spellings run on the same inputs; two bounded-exhaustive scopes (every law at three sites of every small pattern) + seeded random ASTs with shrinking","4 C20",
         "is_match and span lists must be equal for twelve rewrite laws, each exercised with a measured minimum share",
         "copying laws only applied to terms without groups/back-references"),
 }
@@ -61,7 +61,7 @@ T.update({
  "C15":("differential vs an independent replacement-expansion function over the engine's own analyze match list; exhaustive replacement strings <= 4 (quick) / <= 5 (thorough) over {$,\\,0,1,2,9,a}","4 C15",
         "replace_all output or InvalidReplacementString for every replacement string in scope on patterns with 0..13 groups",
         "match spans and group texts come from analyze, so matching defects cannot leak in"),
- "C17":("differential between the two dialect constructors on one pattern text, tags of XPath-only constructs from the AST; R1 with anchors as literals for xsd","4 C17",
+ "C17":("differential between the two dialect constructors on one pattern text, tags of XPath-only constructs from the AST; R1 with anchors as literals for xsd; bounded-exhaustive small scope + seeded random ASTs with shrinking","4 C17",
         "xsd rejects exactly the XPath-only constructs, agrees with xpath on the common subset, and treats ^ and $ as literals",
         "trusts R1 for the anchors-as-literals clause"),
  "C18":("model-based call histories (fresh object per call as the model) executed in order with interleaved iterators, shuffled, and from 4 threads; compile-time Send+Sync assertion crate","4 C18",
